@@ -6,5 +6,6 @@ CONSTANTS
   SendCtxMayEnd = TRUE
   ListenerLock = TRUE
   Eager = TRUE
+  MaxCancels = 2
 INVARIANT EmitCase
 CHECK_DEADLOCK FALSE
